@@ -16,13 +16,18 @@
      division by zero) or the draw stream does not fit the calls made;
    * evaluators are abstracted to their number of clear() calls. *)
 From Coq Require Import ZArith List Bool.
+From VV Require Export Gen.ValidFacts.
 Import ListNotations.
 Local Open Scope Z_scope.
 
+(* Gen/ValidFacts.v is regenerated from holdout_validation.cc and dss.cc on every check run
+   (translate/valid_facts.py): the skip expression, the early return and the loop header of
+   holdout_validation::init, weight(), the guard of dss::shake, the calls made by dss::init /
+   shake / close / clear_evaluators and the statement sequence of dss::shake_impl are READ from
+   the source; this file interprets them. *)
+
 Inductive draw := DInt (lo hi v : Z) | DBool (v : bool).
 
-Definition two32 : Z := 4294967296.
-Definition two64 : Z := 18446744073709551616.
 (* facultative<unsigned>: the empty value is numeric_limits<unsigned>::max() *)
 Definition sentinel : Z := 4294967295.
 
@@ -113,10 +118,10 @@ Record config := mkCfg { perc : Z; gap : Z; tsz : Z -> Z }.
 Definition zlen (l : list example) : Z := Z.of_nat (length l).
 
 (* ------------------------------------------------ holdout_validation::init *)
-(* const auto skip(std::max<size_t>(available * (100 - perc) / 100, 1));
-   100 - perc is computed in unsigned (32 bit), the product in size_t (64 bit) *)
-Definition holdout_skip (available p : Z) : Z :=
-  Z.max (((available * ((100 - p) mod two32)) mod two64) / 100) 1.
+(* const auto skip(...): regenerated; on the pinned tree
+     std::max<size_t>(available * (100 - perc) / 100, 1)
+   with 100 - perc computed in unsigned (32 bit) and the product in size_t (64 bit) *)
+Definition holdout_skip (available p : Z) : Z := gen_holdout_skip available p.
 
 (* for (i = available - 1; i >= skip; --i) iter_swap(begin + i, begin + sup(i + 1)) *)
 Fixpoint fy_loop (cnt : nat) (i : Z) (l : list example) (ds : list draw) : option (list example * list draw) :=
@@ -135,39 +140,62 @@ Fixpoint fy_loop (cnt : nat) (i : Z) (l : list example) (ds : list draw) : optio
       end
   end.
 
+(* the loop header (first index, number of iterations, whether the unsigned index wraps when
+   skip = 0) and the early return are regenerated; index arithmetic of the header is in plain Z:
+   an index outside the array is an error outcome whether or not it wrapped *)
 Definition holdout_init (c : config) (run : Z) (st : state) (ds : list draw) : option (state * list draw) :=
-  if 0 <? run then Some (st, ds)
+  if gen_holdout_early_return run then Some (st, ds)
   else
     let available := zlen (training st) in
-    if available =? 0 then None                       (* available - 1 wraps: loop runs off the array *)
+    let skip := holdout_skip available (perc c) in
+    let first := gen_fy_first available in
+    let cnt := gen_fy_count available skip in
+    if (0 <? cnt) && ((first <? 0) || (available <=? first)) then None   (* begin + i outside the array *)
+    else if gen_fy_wraps && (skip =? 0) then None     (* i >= 0 is never false: the index wraps *)
+    else if (skip <? 0) || (available <? skip) then None   (* std::next(begin, skip) past the end *)
     else
-      let skip := holdout_skip available (perc c) in
-      if available <? skip then None                  (* std::next(begin, skip) past the end *)
-      else
-        match fy_loop (Z.to_nat (available - skip)) (available - 1) (training st) ds with
-        | None => None
-        | Some (l, ds') =>
-            Some (mkSt (firstn (Z.to_nat skip) l)
-                       (validation st ++ skipn (Z.to_nat skip) l)
-                       (clr_t st) (clr_v st), ds')
-        end.
+      match fy_loop (Z.to_nat cnt) first (training st) ds with
+      | None => None
+      | Some (l, ds') =>
+          Some (mkSt (firstn (Z.to_nat skip) l)
+                     (validation st ++ skipn (Z.to_nat skip) l)
+                     (clr_t st) (clr_v st), ds')
+      end.
 
 (* --------------------------------------------------------------------- dss *)
 Definition reset1 (e : example) : example := mkEx (uid e) (payload e) 0 1.
 Definition reset_age_difficulty (l : list example) : list example := map reset1 l.
 Definition inc_age1 (e : example) : example := mkEx (uid e) (payload e) (diff e) ((age e + 1) mod two32).
 
-(* weight(): uintmax_t arithmetic *)
-Definition weight (e : example) : Z := (diff e + age e * age e * age e) mod two64.
+(* weight(): regenerated (uintmax_t arithmetic) *)
+Definition weight (e : example) : Z := gen_weight (diff e) (age e).
 Definition weight_sum (l : list example) : Z := fold_left (fun s e => (s + weight e) mod two64) l 0.
 
-Definition clear_evaluators (st : state) : state :=
-  mkSt (training st) (validation st) (clr_t st + 1) (clr_v st + 1).
+Definition clear_t (st : state) : state := mkSt (training st) (validation st) (clr_t st + 1) (clr_v st).
+Definition clear_v (st : state) : state := mkSt (training st) (validation st) (clr_t st) (clr_v st + 1).
 
 Definition move_to_validation (st : state) : state :=
   mkSt [] (validation st ++ training st) (clr_t st) (clr_v st).
 
+Definition tok_eqb (a b : shape_tok) : bool :=
+  match a, b with
+  | SMoveAll, SMoveAll | SPartition, SPartition | SFallback, SFallback | SMoveSelected, SMoveSelected
+  | SEraseSelected, SEraseSelected | SResetTraining, SResetTraining => true
+  | _, _ => false
+  end.
+Fixpoint shape_eqb (a b : list shape_tok) : bool :=
+  match a, b with
+  | [], [] => true
+  | x :: a', y :: b' => tok_eqb x y && shape_eqb a' b'
+  | _, _ => false
+  end.
+(* the statement sequence of dss::shake_impl this model is a model of *)
+Definition modelled_shape : list shape_tok :=
+  [SMoveAll; SPartition; SFallback; SMoveSelected; SEraseSelected; SResetTraining].
+
 Definition shake_impl (c : config) (st : state) (ds : list draw) : option (state * list draw) :=
+  if negb (shape_eqb gen_shake_impl_shape modelled_shape) then None   (* the source is no longer the modelled one *)
+  else
   let st1 := move_to_validation st in
   let v := validation st1 in
   let s := zlen v in
@@ -182,27 +210,58 @@ Definition shake_impl (c : config) (st : state) (ds : list draw) : option (state
                    (clr_t st) (clr_v st), ds')
   end.
 
-Definition dss_init (c : config) (st : state) (ds : list draw) : option (state * list draw) :=
-  let st0 := mkSt (reset_age_difficulty (training st)) (reset_age_difficulty (validation st))
-                  (clr_t st) (clr_v st) in
-  match shake_impl c st0 ds with
-  | None => None
-  | Some (st1, ds') => Some (clear_evaluators st1, ds')
+(* interpreter of the regenerated call sequences; [arg] is the unsigned argument of the member *)
+Fixpoint run_clear_steps (l : list gstep) (st : state) : option state :=
+  match l with
+  | [] => Some st
+  | GClearT :: l' => run_clear_steps l' (clear_t st)
+  | GClearV :: l' => run_clear_steps l' (clear_v st)
+  | _ :: _ => None
   end.
 
-Definition shake_due (c : config) (gen : Z) : bool := negb (gen =? 0) && (gen mod gap c =? 0).
+Fixpoint run_gstep (c : config) (arg : Z) (s : gstep) (st : state) (ds : list draw) : option (state * list draw) :=
+  match s with
+  | GResetT => Some (mkSt (reset_age_difficulty (training st)) (validation st) (clr_t st) (clr_v st), ds)
+  | GResetV => Some (mkSt (training st) (reset_age_difficulty (validation st)) (clr_t st) (clr_v st), ds)
+  | GIncAgeT => Some (mkSt (map inc_age1 (training st)) (validation st) (clr_t st) (clr_v st), ds)
+  | GIncAgeV => Some (mkSt (training st) (map inc_age1 (validation st)) (clr_t st) (clr_v st), ds)
+  | GShakeImpl => shake_impl c st ds
+  | GClearBoth => match run_clear_steps gen_clear_steps st with Some st' => Some (st', ds) | None => None end
+  | GClearT => Some (clear_t st, ds)
+  | GClearV => Some (clear_v st, ds)
+  | GMoveToValidation => Some (move_to_validation st, ds)
+  | GIf cond s' => if cond arg then run_gstep c arg s' st ds else Some (st, ds)
+  end.
+
+Fixpoint run_gsteps (c : config) (arg : Z) (l : list gstep) (st : state) (ds : list draw) : option (state * list draw) :=
+  match l with
+  | [] => Some (st, ds)
+  | s :: l' => match run_gstep c arg s st ds with
+               | None => None
+               | Some (st1, ds1) => run_gsteps c arg l' st1 ds1
+               end
+  end.
+
+Definition clear_evaluators (st : state) : state :=
+  mkSt (training st) (validation st) (clr_t st + 1) (clr_v st + 1).
+
+Definition dss_init (c : config) (run : Z) (st : state) (ds : list draw) : option (state * list draw) :=
+  run_gsteps c run gen_init_steps st ds.
+
+(* the guard of dss::shake (regenerated): true = return false without touching anything *)
+Definition shake_due (c : config) (gen : Z) : bool := negb (gen_shake_skips gen (gap c)).
 
 Definition dss_shake (c : config) (gen : Z) (st : state) (ds : list draw) : option (state * list draw * bool) :=
   if gap c =? 0 then None                              (* generation % 0 *)
   else if negb (shake_due c gen) then Some (st, ds, false)
   else
-    let st0 := mkSt (map inc_age1 (training st)) (map inc_age1 (validation st)) (clr_t st) (clr_v st) in
-    match shake_impl c st0 ds with
+    match run_gsteps c gen gen_shake_steps st ds with
     | None => None
-    | Some (st1, ds') => Some (clear_evaluators st1, ds', true)
+    | Some (st1, ds') => Some (st1, ds', true)
     end.
 
-Definition dss_close (st : state) : state := clear_evaluators (move_to_validation st).
+Definition dss_close (c : config) (run : Z) (st : state) (ds : list draw) : option (state * list draw) :=
+  run_gsteps c run gen_close_steps st ds.
 
 (* evaluations between the calls: every example's difficulty grows by an
    arbitrary amount (f for the training set, g for the validation set) *)
@@ -223,9 +282,9 @@ Inductive op :=
 Definition step (c : config) (o : op) (st : state) (ds : list draw) : option (state * list draw * option bool) :=
   match o with
   | HoldoutInit r => match holdout_init c r st ds with Some (s, d) => Some (s, d, None) | None => None end
-  | DssInit _ => match dss_init c st ds with Some (s, d) => Some (s, d, None) | None => None end
+  | DssInit r => match dss_init c r st ds with Some (s, d) => Some (s, d, None) | None => None end
   | DssShake g => match dss_shake c g st ds with Some (s, d, b) => Some (s, d, Some b) | None => None end
-  | DssClose _ => Some (dss_close st, ds, None)
+  | DssClose r => match dss_close c r st ds with Some (s, d) => Some (s, d, None) | None => None end
   | Eval f g => Some (eval_step f g st, ds, None)
   end.
 
